@@ -354,7 +354,7 @@ Section RootNext.
     assert (Hfr : fresh l j S).
     { intros e0 He0 Hn Hx. specialize (Ha e0 He0 (or_introl Hn)). unfold e_idx in *. lia. }
     destruct (ev_bound W l Hnf Hndl j e (KK1 (topk t)) S Hfr Hdcl KK1_keeps)
-      as [S1l [[[Ho [Hout [Hseen [Hfl Hcl]]]] Hrs1] [[Hf1 [Hf2 [Hf3 Hf4]]] Hf5]]].
+      as [S1l [[[[Ho [Hout [Hseen [Hfl Hcl]]]] Hrs1] _] [[Hf1 [Hf2 [Hf3 Hf4]]] Hf5]]].
     assert (Hroot1 : rootsel S1l = id) by (rewrite Hrs1; exact Hroot).
     assert (Hmono : incl (seen S) (seen (ev W l (Some (j, e)) (KK1 (topk t)) S))) by (apply ev_seen_incl; [exact Hnf|apply KK1_mono]).
     assert (Hid1 : forall f, get f id S1l = get f id S) by (intros f; apply Hout; exact Hidl).
